@@ -1,72 +1,62 @@
 ---------------------------- MODULE Trace_AEContext ----------------------------
-(* C06, context level (DESIGN C06 "Replay / Judge" 1).  One record per document:
-     {id, frags: [[byte]...], ctx: [c_0..c_n], url: [u_0..u_n]}
-   where c_i / u_i are the Context and URL kind that the REAL lexer gave to a `{{ x }}` inserted at
-   fragment boundary i (read off the ast.Show node by BuildOptions.ExpandedTransformer; -1 the
-   document does not build, -2 no Show node: the hole was not lexed, -3 host panic).
-   The REFERENCE tokenizer (AEHTMLTok) is run over the document bytes and gives the slot of every
-   boundary.  For every boundary this module computes Agree (strict) and Compatible (confinement)
-   between the real context and the reference slot, and the ROOT of a disagreement (the breaking
-   edge: class of the last boundary in step + the fragment that separated the two machines).
-   An incompatible pair is only a CANDIDATE: it is sent to the confinement level, which decides.
-   The implementation-shaped AELexer is run as well, only to report model drift (its predicted
-   context differs from the real one).  Output: ctxout.ndjson, one line per record. *)
+(* C06, context level (DESIGN C06 "Replay / Judge" 1).  The documents exported by MC_AEProduct form a
+   prefix tree; there is one record per NODE (= document prefix), parents before children:
+     {id, p: index of the parent record in this file (0 = the empty document), frag: [byte...],
+      ctx, url}
+   ctx / url are the Context and the URL kind (0 no, 1 URL, 2 srcset) that the REAL lexer gave to a
+   `{{ x }}` placed at the end of this prefix (read off the ast.Show node by
+   BuildOptions.ExpandedTransformer; -1 the document does not build, -2 no Show node: the hole was
+   not lexed, -3 host panic).  The context of a hole depends only on the text before it, so this
+   is also the context of a hole at this boundary inside every longer document.
+   The REFERENCE tokenizer (AEHTMLTok) is stepped over the fragment from the parent's state and
+   gives the slot of the node.  For every node this module computes Agree (strict) and Compatible
+   (confinement) between the real context and the reference slot, and the ROOT CAUSE of a
+   disagreement (the breaking edge).  An incompatible pair is only a CANDIDATE: it is sent to the
+   confinement level, which decides.  The implementation-shaped AELexer is stepped as well, only
+   to report model drift (its predicted context differs from the real one).
+   Output: ctxout.ndjson, one line per record. *)
 EXTENDS AELexer, AEHTMLTok, AETables, TLC, Json
 
 Obs == ndJsonDeserialize("obs.ndjson")
 
-RECURSIVE RefAt(_, _, _, _)
-RefAt(frags, i, h, acc) ==      \* <<slot, kind>> of every boundary
-  IF i > Len(frags) THEN acc
-  ELSE LET h2 == HRun(h, frags[i]) IN RefAt(frags, i + 1, h2, Append(acc, <<Slot(h2), SlotKind(h2)>>))
-RefSlots(frags) == RefAt(frags, 1, H0, << <<Slot(H0), SlotKind(H0)>> >>)
-
-RECURSIVE ModelAt(_, _, _, _)
-ModelAt(frags, i, l, acc) ==
-  IF i > Len(frags) THEN acc
-  ELSE LET l2 == LRun(l, frags[i]) IN ModelAt(frags, i + 1, l2, Append(acc, <<LCtxAtHole(l2), LURLAtHole(l2)>>))
-ModelCtxs(frags) == ModelAt(frags, 1, L0, << <<LCtxAtHole(L0), LURLAtHole(L0)>> >>)
-
 Observed(c) == c >= 0 \/ c = -2
-\* agreement per boundary; a boundary without observation inherits its predecessor's
-RECURSIVE AgreeSeq(_, _, _, _)
-AgreeSeq(r, S, i, acc) ==
-  IF i > Len(r.ctx) THEN acc
-  ELSE LET a == IF Observed(r.ctx[i]) THEN Agree(CtxName(r.ctx[i]), r.url[i], S[i][1], S[i][2])
-                ELSE IF i = 1 THEN TRUE ELSE acc[i - 1]
-       IN AgreeSeq(r, S, i + 1, Append(acc, a))
+NoRoot == [none |-> 1]
 
-(* ROOT CAUSE of what is observed at boundary i: the FIRST boundary j <= i at which strict agreement is
-   lost, named by the class of the boundary before it (the last product-state class in step) and the
-   fragment in between: the breaking edge.  Documents are shortest paths to product states, so an
-   earlier desynchronisation that had been fully repaired would not be on them; a later accidental
+(* ROOT CAUSE of what is observed at a node: the FIRST node on its path at which strict agreement is
+   lost, named by the class of its parent (the last product-state class in step), the fragment
+   in between and the class the two machines are in after it: the breaking edge.  Documents are shortest paths to product states, so an earlier
+   desynchronisation that had been fully repaired would not be on them; a later accidental
    agreement of the context NAMES (e.g. lexer in a JS line comment, reference in JS code) does not
    mean that the two machines are in step again. *)
-RECURSIVE FirstBad(_, _, _)
-FirstBad(A, j, i) == IF j > i THEN 0 ELSE IF ~A[j] THEN j ELSE FirstBad(A, j + 1, i)
-RootOf(r, S, A, i) ==
-  LET j == FirstBad(A, 1, i) IN
-  IF j = 0 THEN [none |-> 1]
-  ELSE IF j = 1 THEN [ctx |-> "start", url |-> 0, slot |-> "start", kind |-> "", frag |-> <<>>]
-  ELSE [ctx |-> CtxName(r.ctx[j - 1]), url |-> r.url[j - 1], slot |-> S[j - 1][1], kind |-> S[j - 1][2], frag |-> r.frags[j - 1]]
+Base == [h |-> HNorm(H0), l |-> L0, ctx |-> "HTML", url |-> 0, slot |-> Slot(H0), kind |-> "", agree |-> TRUE, root |-> NoRoot]
 
-Cls(r) ==
-  LET S == RefSlots(r.frags)
-      M == ModelCtxs(r.frags)
-      A == AgreeSeq(r, S, 1, <<>>)
-      n == Len(r.ctx)
-  IN [id |-> r.id,
-      slot |-> [i \in 1..n |-> S[i][1]],
-      kind |-> [i \in 1..n |-> S[i][2]],
-      agree |-> [i \in 1..n |-> IF A[i] THEN 1 ELSE 0],
-      compat |-> [i \in 1..n |-> IF ~Observed(r.ctx[i]) \/ Compatible(CtxName(r.ctx[i]), r.url[i], S[i][1], S[i][2]) THEN 1 ELSE 0],
-      root |-> [i \in 1..n |-> RootOf(r, S, A, i)],
-      mctx |-> [i \in 1..n |-> M[i][1]],
-      drift |-> [i \in 1..n |-> IF Observed(r.ctx[i]) /\ (CtxName(r.ctx[i]) # M[i][1] \/ r.url[i] # M[i][2]) THEN 1 ELSE 0]]
+NodeOf(n, par) ==
+  LET h2 == HNorm(HRun(par.h, n.frag))
+      l2 == LRun(par.l, n.frag)
+      sl == Slot(h2)
+      kd == SlotKind(h2)
+      cn == CtxName(n.ctx)
+      ag == IF Observed(n.ctx) THEN Agree(cn, n.url, sl, kd) ELSE par.agree
+      rt == IF par.root # NoRoot THEN par.root
+            ELSE IF ag THEN NoRoot
+            ELSE [ctx |-> par.ctx, url |-> par.url, slot |-> par.slot, kind |-> par.kind, frag |-> n.frag,
+                  toctx |-> cn, tourl |-> n.url, to |-> sl, tokind |-> kd]
+  IN [h |-> h2, l |-> l2, ctx |-> IF Observed(n.ctx) THEN cn ELSE par.ctx, url |-> IF Observed(n.ctx) THEN n.url ELSE par.url,
+      slot |-> sl, kind |-> kd, agree |-> ag, root |-> rt,
+      compat |-> ~Observed(n.ctx) \/ Compatible(cn, n.url, sl, kd),
+      mctx |-> LCtxAtHole(l2), murl |-> LURLAtHole(l2)]
+
+RECURSIVE Walk(_, _)
+Walk(i, acc) == IF i > Len(Obs) THEN acc
+                ELSE LET n == Obs[i] IN Walk(i + 1, Append(acc, NodeOf(n, IF n.p = 0 THEN Base ELSE acc[n.p])))
+
+Line(n, x) == [id |-> n.id, slot |-> x.slot, kind |-> x.kind, agree |-> IF x.agree THEN 1 ELSE 0, compat |-> IF x.compat THEN 1 ELSE 0,
+               root |-> x.root, mctx |-> x.mctx, murl |-> x.murl,
+               drift |-> IF Observed(n.ctx) /\ (CtxName(n.ctx) # x.mctx \/ n.url # x.murl) THEN 1 ELSE 0]
 
 VARIABLES l
 Init == l = 1
 Next == l <= Len(Obs) /\ l' = l + 1
-Done == l = Len(Obs) + 1 => ndJsonSerialize("ctxout.ndjson", [k \in 1..Len(Obs) |-> Cls(Obs[k])])
+Done == l = Len(Obs) + 1 => LET W == Walk(1, <<>>) IN ndJsonSerialize("ctxout.ndjson", [k \in 1..Len(Obs) |-> Line(Obs[k], W[k])])
 Consumed == TLCGet("stats").diameter - 1 = Len(Obs)
 =============================================================================
